@@ -506,6 +506,8 @@ func (ex *Exec) harnessPrim(fr *frame, st *State, fn *ssa.Function, args []Value
 			ex.KnownOrder = append(ex.KnownOrder, nm)
 		}
 		return ret(nil)
+	case "vNative":
+		return ret(term.False())
 	case "vRecordGlobals":
 		ex.RecordGlobals = true
 		return ret(nil)
